@@ -73,6 +73,8 @@ def ren_ctor(c, rho):
     out["periodic"] = [rho[a] for a in p] if isinstance(p, list) else ren_kw(p, rho)
     out["boundary"] = ren_kw(c["boundary"], rho)
     out["fill"] = ren_kw(c["fill"], rho)
+    if c.get("ds_extra"):
+        out["ds_extra"] = ren_kw(c["ds_extra"], rho)
     return out
 
 
@@ -93,6 +95,8 @@ def ren_op(case, rho):
     k["axes"] = [rho[a] for a in k["axes"]]
     for f in ("to", "boundary", "fill"):
         k[f] = ren_kw(k[f], rho)
+    if out.get("lazy"):
+        out["lazy"] = ren_kw(out["lazy"], rho)
     return out
 
 
